@@ -215,6 +215,12 @@ class Conn:
             b[fault[1]] ^= fault[2]
             self._queue(bytes(b))
             return False
+        if kind == 'emptypayload':   # a correctly framed packet whose payload is empty
+            self._queue(bytes.fromhex('0000000c0b') + b'\x00' * 11)
+            return False
+        if kind == 'padoverrun':     # padding length larger than the packet length (block size still fine)
+            self._queue(bytes.fromhex('0000000cc8') + b'\x00' * 11)
+            return False
         if kind == 'debug':          # interleave MSG_DEBUG packets before the message
             for _ in range(fault[1]):
                 self._queue(wire.packet(wire.debug_tree()))
@@ -265,6 +271,8 @@ def faults_for_site(site, level='full', trunc_step=1):
             out.append(('type', t))
         for d in (1, 2, 3):
             out.append(('debug', d))
+        out.append(('emptypayload',))
+        out.append(('padoverrun',))
     elif site['label'] in ('banner', 'pre_banner'):
         out.append(('prelines', 1))
         out.append(('prelines', 3))
